@@ -62,6 +62,14 @@ def ev_eval(p, e, h):
         if e.timestamp in p[1]:
             return False
         return ev_eval(p[2], e, h)
+    if t == "raisehist":        # depends on the run's own history, not on the event
+        if len(h.group(gname(p[1]))) >= p[2]:
+            raise PredRaise("scripted (history)")
+        return ev_eval(p[3], e, h)
+    if t == "falsehist":
+        if len(h.group(gname(p[1]))) >= p[2]:
+            return False
+        return ev_eval(p[3], e, h)
     if t == "and":
         return ev_eval(p[1], e, h) and ev_eval(p[2], e, h)
     if t == "or":
@@ -114,6 +122,10 @@ def to_coq(p):
         return "(PRaiseOn %s %s)" % (zs(p[1]), to_coq(p[2]))
     if t == "falseon":
         return "(PFalseOn %s %s)" % (zs(p[1]), to_coq(p[2]))
+    if t == "raisehist":
+        return "(PRaiseIfGroupGe %s %s %s)" % (zz(p[1]), cnat(p[2]), to_coq(p[3]))
+    if t == "falsehist":
+        return "(PFalseIfGroupGe %s %s %s)" % (zz(p[1]), cnat(p[2]), to_coq(p[3]))
     if t in ("and", "or"):
         return "(%s %s %s)" % ("PAnd" if t == "and" else "POr", to_coq(p[1]), to_coq(p[2]))
     if t == "not":
@@ -126,6 +138,8 @@ def strip_raise(p):
     t = p[0]
     if t == "raiseon":
         return ("falseon", p[1], strip_raise(p[2]))
+    if t == "raisehist":
+        return ("falsehist", p[1], p[2], strip_raise(p[3]))
     if t in ("and", "or"):
         return (t, strip_raise(p[1]), strip_raise(p[2]))
     if t == "not":
